@@ -31,6 +31,9 @@ Extra(r) == CASE r.fam = "trg" -> TrgOrdered(r.acc)
 
 Judge(r) ==
   IF r.verdict \notin {"ok", "err"} THEN "crash"
+  ELSE IF r.fam = "pwbbase" THEN
+       (IF (r.verdict = "ok") # SuppressionBaselineOk(r.wave) THEN "verdict"
+        ELSE IF r.verdict = "ok" /\ r.value # SuppressionBaseline(r.wave) THEN "acc" ELSE "fine")
   ELSE IF (r.verdict = "ok") # WF(r) THEN "verdict"
   \* a record marked `mut` is a 1-3 bit / burst mutant of an accepted chunk (C03): the
   \* specification itself must reject it
